@@ -242,6 +242,7 @@ type world struct {
 	key, other []byte
 	c, oc      *aead.MiscreantCipher
 	store      *sessions.CookieStore
+	ostore     *sessions.CookieStore // a store of the same process under the OTHER key
 }
 
 func newWorld(r *rand.Rand, size int) (*world, error) {
@@ -267,7 +268,10 @@ func newWorld(r *rand.Rand, size int) (*world, error) {
 	if w.oc, err = aead.NewMiscreantCipher(w.other); err != nil {
 		return nil, err
 	}
-	w.store, err = sessions.NewCookieStore(cookieName, sessions.CreateMiscreantCookieCipher(w.key))
+	if w.store, err = sessions.NewCookieStore(cookieName, sessions.CreateMiscreantCookieCipher(w.key)); err != nil {
+		return nil, err
+	}
+	w.ostore, err = sessions.NewCookieStore(cookieName, sessions.CreateMiscreantCookieCipher(w.other))
 	return w, err
 }
 
@@ -320,6 +324,13 @@ func RunCell(n int, in In, r *rand.Rand) (Line, error) {
 		return ln, fmt.Errorf("case %d: %v", n, err)
 	}
 	ln.S = Classify(g1, h, presented, origin, key)
+	if key != "own" && r.Intn(2) == 0 {
+		// the string is genuine under ANOTHER key: it has just been opened, in this very process, by the cipher / store
+		// that holds that key (sso-proxy and sso-auth instances, or two configurations, can share a process)
+		if wo := open(w.oc, w.ostore, cell.Kind, cell.Via, presented); wo.err == nil {
+			note += " (opened first by the holder of the other key)"
+		}
+	}
 	o := open(w.c, w.store, cell.Kind, cell.Via, presented)
 	ln.Out = Out{Err: o.err != nil, Data: v.data(o.got, o.err != nil), Twin: "differs", Leak: leaks(g1, v.fields) && leaks(g2, v.fields)}
 	if g1 == g2 {
